@@ -95,7 +95,7 @@ def diagnose(case, o):
     if r == "Alaska" and o.exc is not None and o.seam.kind == "seeded" and o.seam.nontrivial >= 1:
         import traceback
 
-        names = [t.name for t in traceback.extract_tb(o.exc.__traceback__) if "/votekit/" in t.filename]
+        names = [t.name for t in traceback.extract_tb(o.exc.__traceback__) if seams.in_votekit(t.filename)]
         if "get_profile" in names:  # the failure happened while re-executing recorded rounds
             return "alaska_replay_redraws"
     if r in G.STV_FAMILY + ("Alaska",) and kw.get("quota") == "hare":
